@@ -119,6 +119,16 @@ fn play(cfg: &WorldCfg, next: &mut dyn FnMut(&FactoryWorld, usize) -> Option<Cre
                 concrete.push(op.clone());
             }
             let code = fw.w.codes.pair;
+            // (every third such operation migrates the factory itself too, and uses the second pair code id)
+            let third = idx % 3 == 0;
+            let code = if third { fw.w.codes.pair_alt } else { code };
+            if third {
+                let (f, c) = (fw.w.factory.to_string(), fw.w.codes.factory);
+                let rf = fw.w.exec(Step { sender: fw.w.owner.to_string(), call: Call::Migrate { contract: f, code_id: c }, funds: vec![] });
+                if rf.outcome.is_ok() {
+                    classes.push("adm:factory-migrated");
+                }
+            }
             let rec = fw.w.exec(Step { sender: fw.w.owner.to_string(), call: Call::Factory { msg: haloswap::factory::ExecuteMsg::MigratePair { contract: addr.clone(), code_id: Some(code) } }, funds: vec![] });
             if want_desc {
                 log.push(json!({"migrate": addr, "ok": rec.outcome.is_ok()}));
